@@ -37,7 +37,11 @@ pub fn gen_rel(args: &Args) {
         budget: Some(DEFAULT_BUDGET),
         ..Default::default()
     };
-    let kinds: Vec<&str> = if set == "names" {
+    let shard = args.num("shard", 0);
+    let shards = args.num("shards", 1);
+    let kinds: Vec<&str> = if set == "fused-directed" {
+        vec!["lit2var"]
+    } else if set == "names" {
         vec!["rename", "shadow", "undeclare"]
     } else {
         vec!["wrap", "lit2var", "mirror", "prepend"]
@@ -55,23 +59,37 @@ pub fn gen_rel(args: &Args) {
         };
         let mut g = Gen::new(s, cfg_for(fam));
         let mut base = g.program();
-        if set != "names" && i % 4 == 3 {
-            // directed: a variable-op-literal shape inside a function, applied to a value of EVERY type
-            // (the fused instructions must report the same errors as the plain ones)
+        let mut directed_var: Option<Vec<Stmt>> = None;
+        if set == "fused-directed" {
+            // complete enumeration: the shape the compiler fuses (`local op integer literal`, both orientations)
+            // applied to a value of EVERY type, against the same computation through a temporary, which it
+            // cannot fuse (the fused instructions must give the same values and the same errors)
             use crate::ast::{call, id, infix, Expr};
             let ex = crate::semfam::exemplars();
-            let (_, arg) = ex[(i as usize / 4) % ex.len()].clone();
-            let op = crate::semfam::ALL_OPS[(i as usize / 4 / ex.len()) % 11];
-            let lit = Expr::Int([0, 1, 7][(i as usize / 7) % 3]);
-            let body = if (i / 4) % 2 == 0 { infix(op, id("x"), lit) } else { infix(op, lit, id("x")) };
-            base = vec![
-                Stmt::Expr(Expr::Func { name: "g".into(), params: vec![], body: vec![Stmt::Expr(Expr::Int(2))] }),
-                Stmt::Expr(Expr::Func { name: "g2".into(), params: vec![], body: vec![Stmt::Expr(Expr::Int(1))] }),
-                Stmt::Expr(Expr::Func { name: "h".into(), params: vec!["x".into()], body: vec![Stmt::Expr(body)] }),
-                Stmt::Expr(call("h", vec![arg])),
-            ];
+            let j = (i * shards + shard) as usize;
+            if j >= ex.len() * 11 * 3 * 2 {
+                break;
+            }
+            let (_, arg) = ex[j % ex.len()].clone();
+            let op = crate::semfam::ALL_OPS[(j / ex.len()) % 11];
+            let litv = [0, 1, 7][(j / ex.len() / 11) % 3];
+            let flip = (j / ex.len() / 33) % 2 == 1;
+            let mk = |l: Expr, r: Expr| if flip { infix(op, r, l) } else { infix(op, l, r) };
+            let prog = |body: Vec<Stmt>| {
+                vec![
+                    Stmt::Expr(Expr::Func { name: "g".into(), params: vec![], body: vec![Stmt::Expr(Expr::Int(2))] }),
+                    Stmt::Expr(Expr::Func { name: "g2".into(), params: vec![], body: vec![Stmt::Expr(Expr::Int(1))] }),
+                    Stmt::Expr(Expr::Func { name: "h".into(), params: vec!["x".into()], body }),
+                    Stmt::Expr(call("h", vec![arg.clone()])),
+                ]
+            };
+            base = prog(vec![Stmt::Expr(mk(id("x"), Expr::Int(litv)))]);
+            directed_var = Some(prog(vec![
+                Stmt::Let("t".into(), Expr::Int(litv)),
+                Stmt::Expr(mk(id("x"), id("t"))),
+            ]));
         }
-        let var: Option<Vec<Stmt>> = match kind {
+        let var: Option<Vec<Stmt>> = if directed_var.is_some() { directed_var } else { match kind {
             "rename" => {
                 let names: Vec<String> = xform::all_names(&base)
                     .into_iter()
@@ -87,7 +105,7 @@ pub fn gen_rel(args: &Args) {
             "lit2var" => xform::literal_to_variable(&base, &mut rng),
             "mirror" => xform::mirror(&base),
             _ => Some(xform::prepend_literals(&base, &mut rng)),
-        };
+        } };
         let var = match var {
             Some(v) => v,
             None => continue,
